@@ -43,28 +43,60 @@ Definition exceeds (c : sc) (size : Z) : option Z :=
   | None => None
   end.
 
-(** [SizeConstraintList.bytes_parsed(path, size)] (not anticipating): walks a copy of the list in order;
-    obsolete entries are removed; entries before a violated one have already been charged. *)
-Fixpoint bp_walk (ids : list nat) (p : path) (size : Z) : M unit :=
+(** [SizeConstraintList.bytes_parsed(path, size)] (not anticipating):
+    1. finished constraints are dropped from the list;
+    2. decide first: the outermost (first listed) region the field would cross;
+    3a. none: every listed region is charged [size];
+    3b. region [i]: the enclosing regions (listed before it) are charged the bytes actually skipped, the regions
+        opened inside it (listed after it) are abandoned and dropped, then [i] is marked finished, the rest of
+        it is skipped and Exceeded is raised *)
+Definition purge : M unit :=
+  s <- get ;; set_lst (filter (fun i => negb (sc_obs (get_sc s i))) (lst s)).
+
+Fixpoint find_violated (s : st) (ids : list nat) (size : Z) (before : list nat)
+  : option (list nat * nat * Z * list nat) :=
+  match ids with
+  | [] => None
+  | i :: r =>
+      match exceeds (get_sc s i) size with
+      | Some by_ => Some (rev before, i, by_, r)
+      | None => find_violated s r size (i :: before)
+      end
+  end.
+
+Fixpoint bump_all (ids : list nat) (n : Z) : M unit :=
   match ids with
   | [] => ret tt
   | i :: r =>
       s <- get ;;
       let c := get_sc s i in
-      if sc_obs c then remove_lst i ;;; bp_walk r p size
-      else match exceeds c size with
-           | Some by_ =>
-               set_sc i (mkSc (sc_path c) (sc_max c) (sc_already c) true) ;;;
-               consume (match sc_max c with Some mx => mx - sc_already c | None => 0 end) ;;;
-               fail (EExceeded (info i c) p by_)
-           | None =>
-               set_sc i (mkSc (sc_path c) (sc_max c) (sc_already c + size) (sc_obs c)) ;;;
-               bp_walk r p size
-           end
+      set_sc i (mkSc (sc_path c) (sc_max c) (sc_already c + n) (sc_obs c)) ;;; bump_all r n
+  end.
+
+Fixpoint retire_all (ids : list nat) : M unit :=
+  match ids with
+  | [] => ret tt
+  | i :: r =>
+      s <- get ;;
+      let c := get_sc s i in
+      set_sc i (mkSc (sc_path c) (sc_max c) (sc_already c) true) ;;; retire_all r
   end.
 
 Definition bytes_parsed (p : path) (size : Z) : M unit :=
-  s <- get ;; bp_walk (lst s) p size.
+  purge ;;;
+  s <- get ;;
+  match find_violated s (lst s) size [] with
+  | None => bump_all (lst s) size
+  | Some (before, i, by_, after) =>
+      let c := get_sc s i in
+      let room := match sc_max c with Some mx => mx - sc_already c | None => 0 end in
+      bump_all before (Z.max room 0) ;;;
+      retire_all after ;;;
+      set_lst (before ++ [i]) ;;;
+      set_sc i (mkSc (sc_path c) (sc_max c) (sc_already c) true) ;;;
+      consume room ;;;
+      fail (EExceeded (info i c) p by_)
+  end.
 
 (** anticipate_only walk over the *other* constraints: first live one that would be exceeded *)
 Fixpoint anticipate (s : st) (ids : list nat) (self : nat) (size : Z) : option (scinfo * Z) :=
@@ -94,16 +126,33 @@ Definition set_constraint (abort : bool) (i : nat) (p : path) (size_max : Z) : M
   | None => ret tt
   end.
 
-(** [constraint.assert_done(all_size_constraints, abort)] *)
+(** charge [n] bytes to every listed, unfinished constraint other than [self] *)
+Fixpoint bump_others (ids : list nat) (self : nat) (n : Z) : M unit :=
+  match ids with
+  | [] => ret tt
+  | i :: r =>
+      s <- get ;;
+      let c := get_sc s i in
+      (if Nat.eqb i self || sc_obs c then ret tt
+       else set_sc i (mkSc (sc_path c) (sc_max c) (sc_already c + n) (sc_obs c))) ;;;
+      bump_others r self n
+  end.
+
+(** [constraint.assert_done(all_size_constraints, abort)]: nothing to do for a region already abandoned after a
+    reported overrun; otherwise the region is finished: exactly filled, or Subceeded - in warn mode the rest of
+    it is skipped and counted in the enclosing regions *)
 Definition assert_done (abort : bool) (i : nat) : M unit :=
   s <- get ;;
   let c := get_sc s i in
   match sc_max c with
   | None => internal_ IAssertMaxNone
   | Some mx =>
+      if sc_obs c then ret tt else
       set_sc i (mkSc (sc_path c) (sc_max c) (sc_already c) true) ;;;
       if sc_already c =? mx then ret tt
       else let e := ESubceeded (info i c) in
            if abort then fail e
-           else emit (Wn e) ;;; consume (mx - sc_already c)
+           else emit (Wn e) ;;;
+                bump_others (lst s) i (Z.max (mx - sc_already c) 0) ;;;
+                consume (Z.max (mx - sc_already c) 0)
   end.
